@@ -15,6 +15,7 @@ CONSTANTS
   AllowConcurrent = TRUE
   GcStopsOnUnreadableHunk = TRUE
   GcBandsBeforeBlocks = TRUE
+    TailCarriesCount = TRUE
   GcRefusesHeadlessNewest = TRUE
 INVARIANTS Inv_QuiescentNoLoss Inv_RecordedBytes Inv_CompleteSuccess Inv_SkippedReported
 CHECK_DEADLOCK FALSE
